@@ -283,6 +283,8 @@ def run(ctx):
                         var, n, k, l, B, [i for i, x in enumerate(bara) if x], e, d, bound, steps), {'case': line[:300000], 'variant': var, 'exponent': e, 'maxdiff': d, 'bound': bound})
     ctx.cov['extprod_cases'] = nB
     ctx.cov['worst_observed_difference_units'] = {str(k): v for k, v in sorted(worst.items(), key=str)}
+    # allocation failures inside the external products (both domains, in place and out of place)
+    vlib.allocfail_block(ctx, [(fn, 1024, k, l, B) for fn in (6, 7, 8) for (k, l, B) in ((1, 2, 8), (2, 3, 7))])
     ctx.sample({'extprod worst differences (units of 2^-32)': {str(k): v for k, v in list(sorted(worst.items(), key=str))[:8]}})
 
 def rot(p, e):
@@ -296,6 +298,7 @@ def rot(p, e):
     return out
 
 def replay(ctx, data):
+    if data.get('tool') == 'allocfail': return vlib.allocfail_replay(data)
     exe = vlib.build_harness('boot_drv.cpp', vlib.build_lib(data.get('build', 'optim')), 'spqlios-fma', data.get('build', 'optim'))
     if 'case' not in data: print(json.dumps(data)[:1000]); return 0
     line = data['case']; opc = data.get('opcode', 0)
